@@ -217,13 +217,26 @@ class PyEval(MiniEval):
         if isinstance(a, Opaque) or isinstance(b, Opaque):
             raise Unsupported(f"comparison with {a!r} / {b!r}")
         if isinstance(op, ast.Is):
-            return a is b or (isinstance(a, Tok) and a == b) or (isinstance(a, type) and a == b)
+            # (strings stand for enum members -- `UseKind.BORROW` -- whose identity is their name)
+            return a is b or (isinstance(a, Tok) and a == b) or (isinstance(a, type) and a == b) or (isinstance(a, str) and isinstance(b, str) and a == b)
         if isinstance(op, ast.IsNot):
             return not self.compare(ast.Is(), a, b)
         if isinstance(op, ast.Eq):
             return a == b
         if isinstance(op, ast.NotEq):
             return a != b
+        if isinstance(op, (ast.In, ast.NotIn)) and isinstance(b, Tok):
+            # membership in a token: its `__contains__` handler, or the `__contains__` method of its repository class
+            if callable(b.attrs.get("__contains__")):
+                r = b.attrs["__contains__"](a)
+            else:
+                fm = next((m for m in (c.find_method("__contains__") for c in b.attrs.get("__classes__", ())) if m is not None), None)
+                if fm is None:
+                    raise Unsupported(f"membership in token {b!r}")
+                r = self.call_dunder(fm, b, [a], {})
+            if not isinstance(r, bool):
+                raise Unsupported(f"__contains__ of {b!r} gives {r!r}")
+            return r if isinstance(op, ast.In) else not r
         if isinstance(op, ast.In):
             return a in b
         if isinstance(op, ast.NotIn):
@@ -867,6 +880,13 @@ class PyEval(MiniEval):
                 if not recv:
                     raise Raised("pop from empty list", "IndexError")
                 return recv.pop(*A())
+            if isinstance(recv, set) and m == "pop" and not node.args and getattr(self, "set_order", None) in ("asc", "desc"):
+                # an arbitrary element: the caller explores both iteration orders (set_order), the verdict must not depend on it
+                if not recv:
+                    raise Raised("pop from an empty set", "KeyError")
+                x_ = self.ordered(recv)[0]
+                recv.discard(x_)
+                return x_
             if isinstance(recv, dict) and m == "pop" and 1 <= len(node.args) <= 2:
                 if A()[0] not in recv and len(A()) == 1:
                     raise Raised(f"KeyError {A()[0]!r}", "KeyError")
@@ -1110,6 +1130,15 @@ class PyEval(MiniEval):
             return sum(A()[0])
         if fn == "range" and node.args and all(isinstance(x, int) for x in A()) and abs(A()[-1]) < 10000:
             return list(range(*A()))
+        # a callable VALUE: a token that models a callable object (`__call__` handler), or a function object of the interpreted
+        # code that was obtained from an expression (`table[k](x)`, `obj.__getattr__(name)(x)`)
+        if isinstance(node.func, (ast.Call, ast.Subscript)) or (isinstance(node.func, ast.Name) and isinstance(env.get(node.func.id), Tok)):
+            target = self.ev(node.func, env)
+            h_ = target.attrs.get("__call__") if isinstance(target, Tok) else (target if getattr(target, "__gsa_lambda__", False) else None)
+            if callable(h_):
+                if node.keywords:
+                    raise Unsupported("call of a callable value with keywords")
+                return h_(*A())
         # repository function?
         if isinstance(node.func, ast.Name):
             q = self.idx.resolve_name(self.module, node.func.id)
